@@ -47,7 +47,7 @@ def others (r : Nat) (l : List Member) : List Member := l.filter (fun m => m.req
 def holdsSlot (r : Nat) (l : List Member) : Bool := l.any (fun m => m.req == r)
 
 /-- Concurrent quotas the user flow's limiters consult (with ancestors). -/
-def Cfg.concPath (cfg : Cfg) : List Nat := cfg.refd.filter cfg.isConc
+def Cfg.concPath (cfg : Cfg) : List Nat := (cfg.order.filter cfg.isConc).flatMap cfg.chainOf
 
 /-- (i) for one observed set. -/
 def snapOk (cfg : Cfg) (q : Nat) (a : List Member) : Bool :=
